@@ -214,7 +214,27 @@ def _safe_to_inline(fn, assign: ast.Assign, name: str) -> bool:
         return False
     last = max(u.lineno for u in uses)
     first = assign.lineno
+    # a use inside a loop that does not contain the definition is re-evaluated on every iteration: everything the
+    # loop writes comes "between"
+    loop_carried = False
+    for lp in _own_nodes(fn):
+        if isinstance(lp, (ast.For, ast.While, ast.AsyncFor)):
+            lo, hi = lp.lineno, getattr(lp, "end_lineno", lp.lineno)
+            if any(lo <= u.lineno <= hi for u in uses) and not (lo <= assign.lineno <= hi):
+                last = max(last, hi)
+                loop_carried = True
+    # the statement holding the last use may itself store what the expression reads (`self.x = local[k:]`): its
+    # right-hand side is evaluated before the store, so the store does not come "between"
+    final_targets = set()
+    for st in _own_nodes(fn):
+        if isinstance(st, (ast.Assign, ast.AugAssign)) and getattr(st, "end_lineno", st.lineno) >= last and st.lineno <= last:
+            if not loop_carried and any(u is x for u in uses for x in ast.walk(st.value)) and not any(u.lineno > getattr(st, "end_lineno", st.lineno) for u in uses):
+                for t in (st.targets if isinstance(st, ast.Assign) else [st.target]):
+                    for x in ast.walk(t):
+                        final_targets.add(id(x))
     for n in _own_nodes(fn):
+        if id(n) in final_targets:
+            continue
         ln = getattr(n, "lineno", None)
         if ln is None or ln <= first or ln > last or n is assign:
             continue
